@@ -162,6 +162,7 @@ func propC01(j *Job) {
 		cases = append(cases, famKS(modes, 2, false, []time.Duration{0}, 3)...)
 		cases = append(cases, famZ6([]int{33000})...)
 	}
+	cases = append(cases, famZ8([]int{32769, 32770, 32771})...)
 	runCases(j, cases, func(spec *xferSpec) func(m *Sim, x *Exec, r *xferResult) {
 		return deliveryFinal(spec, false, monOpts{})
 	})
